@@ -484,12 +484,32 @@ def _payload_norm(t):
     return effects.rebuild(t, f)
 
 
+def _is_width_mask(t):
+    """2^(8*size_of::<T>()) - 1 : the mask that undoes the sign extension of a narrow signed value."""
+    return sym.contains(t, lambda x: isinstance(x, tuple) and x and x[0] == 'call' and str(x[1]).endswith('mem::size_of'))
+
+
 def _mod_affine(t, is_state):
-    """affine form of a counter modulo wrap-around: casts, constant masks and saturation are transparent."""
+    """affine form of a counter modulo wrap-around: constant masks and saturation are transparent; a cast of a *wrapping
+    difference* is only transparent under the width mask (a generic symbol type may be signed and narrower than the
+    target: a difference that is negative as a symbol would sign-extend) - otherwise it becomes an `unmasked` atom."""
+    def pre(n):
+        if n and n[0] == 'bin' and n[1] == 'BitAnd':
+            for a, b in ((n[2], n[3]), (n[3], n[2])):
+                if _is_width_mask(a) and isinstance(b, tuple) and b and b[0] == 'cast':
+                    return ('masked', b[2])
+        return None
+    t = effects.rebuild(t, pre)
+
     def f(n):
         if not n:
             return None
+        if n[0] == 'masked':
+            return n[1]
         if n[0] == 'cast':
+            inner = n[2]
+            if isinstance(inner, tuple) and inner and inner[0] == 'bin' and inner[1] in ('Sub.w', 'Sub') and sym.contains(inner, is_state) and n[4] not in ('usize', 'u8', 'u16', 'u32', 'u64', 'u128'):
+                return ('unmasked', inner)
             return n[2]
         if n[0] == 'k' and n[1] in ('one', 'zero'):
             return ('int', 1 if n[1] == 'one' else 0)
@@ -614,6 +634,11 @@ def check_size_hint_steps(ctx, F):
             a, b = _mod_affine(pre_s, is_state), _mod_affine(post_s, is_state)
             if a is None or b is None:
                 verdict.append(('unres', 'bound is not affine'))
+                continue
+            unmasked = [at for k, (c, at) in list(a[0].items()) + list(b[0].items()) if isinstance(at, tuple) and at and at[0] == 'unmasked']
+            if unmasked:
+                verdict.append(('bad', 'the bound casts the wrapping difference %s to a wider integer without masking it to the width of the symbol type: for a signed symbol type whose support spans half its range or more the '
+                                'difference is negative as a symbol and sign-extends, so size_hint().0 is about 2^64 and collectors fail with a capacity overflow' % sym.show(unmasked[0][1])[:100]))
                 continue
             d = sym.affine_sub(a, b)
             if not d[0] and d[1] == 1:
